@@ -79,6 +79,11 @@ pub struct TunnelCase {
     /// fills up (back-pressure through target -> server -> session -> client -> front-end)
     #[serde(default)]
     pub slow_reader_ms: u16,
+    /// Some((ms, MiB)): instead of echoing, the target reads nothing for this long and then reads on
+    /// at its own pace while the application uploads this many MiB: the connection between the
+    /// server and the target backs up until the kernel takes only parts of what the relay writes
+    #[serde(default)]
+    pub slow_target: Option<(u16, u8)>,
 }
 
 pub struct TunnelFam;
@@ -91,12 +96,21 @@ impl Family for TunnelFam {
     fn strategy(&self, _tier: Tier) -> BoxedStrategy<TunnelCase> {
         let chunk = weighted_sizes(vec![(3, 1..=100), (3, 101..=9000), (2, 8191..=8193), (2, 65534..=65537), (1, 70000..=70000), (1, 200_000..=200_000)]);
         let plain = (any::<bool>(), proptest::collection::vec(chunk, 1..8), 0u8..4, prop_oneof![Just(0usize), Just(10), Just(100_000)])
-            .prop_map(|(via_http, chunks, pause_every, greeting)| TunnelCase { via_http, chunks, pause_every, greeting, slow_reader_ms: 0 });
+            .prop_map(|(via_http, chunks, pause_every, greeting)| TunnelCase { via_http, chunks, pause_every, greeting, slow_reader_ms: 0, slow_target: None });
         // megabytes against a reader that starts late
         let big = weighted_sizes(vec![(1, 65536..=65536), (2, 1_000_000..=1_000_000), (1, 2_500_000..=2_500_000)]);
         let pressed = (any::<bool>(), proptest::collection::vec(big, 2..5), prop_oneof![Just(0usize), Just(3_000_000)], prop_oneof![Just(150u16), Just(600)])
-            .prop_map(|(via_http, chunks, greeting, slow_reader_ms)| TunnelCase { via_http, chunks, pause_every: 0, greeting, slow_reader_ms });
-        prop_oneof![7 => plain, 1 => pressed].boxed()
+            .prop_map(|(via_http, chunks, greeting, slow_reader_ms)| TunnelCase { via_http, chunks, pause_every: 0, greeting, slow_reader_ms, slow_target: None });
+        let stalled_target = (any::<bool>(), prop_oneof![Just(300u16), Just(1500)], prop_oneof![Just(12u8), Just(24)])
+            .prop_map(|(via_http, ms, mib)| TunnelCase { via_http, chunks: vec![], pause_every: 0, greeting: 0, slow_reader_ms: 0, slow_target: Some((ms, mib)) });
+        prop_oneof![28 => plain, 4 => pressed, 1 => stalled_target].boxed()
+    }
+    fn fixed_cases(&self, _tier: Tier) -> Vec<TunnelCase> {
+        // an upload against a target that does not read at first, through either front-end
+        vec![
+            TunnelCase { via_http: false, chunks: vec![], pause_every: 0, greeting: 0, slow_reader_ms: 0, slow_target: Some((1500, 24)) },
+            TunnelCase { via_http: true, chunks: vec![], pause_every: 0, greeting: 0, slow_reader_ms: 0, slow_target: Some((1500, 24)) },
+        ]
     }
     fn case_budget_s(&self) -> u64 {
         180
@@ -107,6 +121,63 @@ impl Family for TunnelFam {
         let r = with_world(|w| {
             w.rt.block_on(async {
                 let case = c;
+                if let Some((stall_ms, mib)) = case.slow_target {
+                    // a target that lets the upload back up, then takes it at its own pace; no echo
+                    let total = mib as usize * (1 << 20);
+                    let l = tokio::net::TcpListener::bind(SocketAddr::new(IpAddr::V4(worker_ip_n(30)), 0)).await.map_err(|e| infra(format!("target bind: {e}")))?;
+                    let taddr = l.local_addr().map_err(|e| infra(e.to_string()))?;
+                    let got: std::sync::Arc<std::sync::Mutex<Vec<u8>>> = Default::default();
+                    let g2 = got.clone();
+                    tokio::spawn(async move {
+                        let Ok((mut s, _)) = l.accept().await else { return };
+                        tokio::time::sleep(Duration::from_millis(stall_ms as u64)).await;
+                        let mut b = vec![0u8; 1 << 16];
+                        loop {
+                            match s.read(&mut b).await {
+                                Ok(0) | Err(_) => break,
+                                Ok(n) => g2.lock().unwrap().extend_from_slice(&b[..n]),
+                            }
+                        }
+                    });
+                    let via = if case.via_http { "HTTP CONNECT" } else { "SOCKS5" };
+                    let mut s = if case.via_http {
+                        http_connect(w.http, &taddr.to_string(), b"").await.map_err(|e| Fail::plain("C01.api", format!("CONNECT to an accepting target failed: {e}")))?.0
+                    } else {
+                        socks5_connect(w.socks, &Dest::of(taddr)).await.map_err(|e| Fail::plain("C01.api", format!("SOCKS5 CONNECT to an accepting target failed: {:?}", e)))?
+                    };
+                    let upload = async {
+                        let mut off = 0usize;
+                        while off < total {
+                            let n = (1usize << 16).min(total - off);
+                            if s.write_all(&keyed(1, 0, off as u64, n)).await.is_err() {
+                                return false;
+                            }
+                            off += n;
+                        }
+                        true
+                    };
+                    let wrote = tokio::time::timeout(Duration::from_secs(100), upload).await;
+                    ensure!(matches!(wrote, Ok(true)), "C01.complete", "the application could not get its {mib} MiB upload accepted within 100 s (via {via}; the target starts reading after {stall_ms} ms)");
+                    // everything that was written arrives, in order, unchanged
+                    let mut last = (0usize, tokio::time::Instant::now());
+                    wait_until(60_000, || {
+                        let n = got.lock().unwrap().len();
+                        if n != last.0 {
+                            last = (n, tokio::time::Instant::now());
+                        }
+                        n >= total || last.1.elapsed() >= Duration::from_secs(5)
+                    })
+                    .await;
+                    let got = got.lock().unwrap().clone();
+                    let n = got.len().min(total);
+                    let want = keyed(1, 0, 0, n);
+                    if got[..n] != want[..] {
+                        let first = got.iter().zip(want.iter()).position(|(a, b)| a != b).unwrap_or(0);
+                        return Err(Fail::plain("C01.prefix", format!("a {mib} MiB upload to a target that starts reading after {stall_ms} ms (via {via}): the bytes at the target differ from what was sent, first at offset {first}")));
+                    }
+                    ensure!(got.len() == total, "C01.complete", "a {mib} MiB upload to a target that starts reading after {stall_ms} ms (via {via}): the target received {} of {total} bytes, then nothing more for 5 s", got.len());
+                    return Ok(());
+                }
                 // a target that greets, then echoes
                 let greet = keyed(1, 1, 0, case.greeting);
                 let target = GreetEcho::start(IpAddr::V4(worker_ip_n(30)), greet.clone()).await?;
@@ -196,6 +267,8 @@ impl Family for TunnelFam {
         out.class_if(!case.via_http, "socks5");
         out.class_if(case.greeting > 65535, "target-sends-first>64KiB");
         out.class_if(case.slow_reader_ms > 0 && total >= 2_000_000, "late-reader>=2MB-in-flight");
+        out.class_if(case.slow_target.is_some(), "upload-against-a-stalled-target");
+        out.nt(case.slow_target.is_some());
         Ok(out)
     }
 }
@@ -412,6 +485,10 @@ pub struct SrvFinCase {
     pub by_session_close: bool,
     /// size of the client's data frames
     pub frame: usize,
+    /// ClientFirst only: the client does not wait for the server's SYNACK - open, destination, data
+    /// and the end arrive in one piece, the end is processed while the server is still dialling
+    #[serde(default)]
+    pub early_fin: bool,
 }
 
 pub struct SrvFinFam;
@@ -429,8 +506,9 @@ impl Family for SrvFinFam {
             amount,
             proptest::bool::weighted(0.3),
             prop_oneof![Just(1usize), Just(1000), Just(16384), Just(65535)],
+            proptest::bool::weighted(0.4),
         )
-            .prop_map(|(order, up, down, by_session_close, frame)| SrvFinCase { order, up, down, by_session_close, frame })
+            .prop_map(|(order, up, down, by_session_close, frame, early_fin)| SrvFinCase { early_fin: early_fin && order == SrvOrder::ClientFirst, order, up, down, by_session_close, frame })
             .boxed()
     }
     fn case_budget_s(&self) -> u64 {
@@ -459,10 +537,21 @@ impl Family for SrvFinFam {
                     RFrame::ctl(rc::SYN, SID),
                     RFrame::new(rc::PSH, SID, Dest::of(target.addr).encode()),
                 ]));
+                let early = case.early_fin && case.order == SrvOrder::ClientFirst;
+                if early {
+                    // everything in one piece: the end of the stream is there before the dial has finished
+                    let mut frames: Vec<RFrame> = up.chunks(case.frame.max(1)).map(|c| RFrame::new(rc::PSH, SID, c.to_vec())).collect();
+                    if !case.by_session_close {
+                        frames.push(RFrame::ctl(rc::FIN, SID));
+                    }
+                    hello.extend(rc::encode_all(&frames));
+                }
                 cl.send_raw(&hello).await.map_err(|e| infra(format!("reference client write: {e}")))?;
-                let ack = cl.wait_for(10_000, |f| f.cmd == rc::SYNACK && f.sid == SID).await;
-                if ack.is_none() || ack.is_some_and(|f| !f.data.is_empty()) {
-                    return Err(infra("the server did not accept the stream to a listening target"));
+                if !early {
+                    let ack = cl.wait_for(10_000, |f| f.cmd == rc::SYNACK && f.sid == SID).await;
+                    if ack.is_none() || ack.is_some_and(|f| !f.data.is_empty()) {
+                        return Err(infra("the server did not accept the stream to a listening target"));
+                    }
                 }
                 let data_seen = |cl: &RefClient| -> Vec<u8> { cl.seen.iter().filter(|f| f.cmd == rc::PSH && f.sid == SID).flat_map(|f| f.data.iter().copied()).collect() };
                 let expect_down = case.order != SrvOrder::ClientFirst;
@@ -492,11 +581,13 @@ impl Family for SrvFinFam {
                     }
                     _ => {
                         // the client sends `up` and finishes
-                        let mut frames: Vec<RFrame> = up.chunks(case.frame.max(1)).map(|c| RFrame::new(rc::PSH, SID, c.to_vec())).collect();
-                        if !case.by_session_close {
-                            frames.push(RFrame::ctl(rc::FIN, SID));
+                        if !early {
+                            let mut frames: Vec<RFrame> = up.chunks(case.frame.max(1)).map(|c| RFrame::new(rc::PSH, SID, c.to_vec())).collect();
+                            if !case.by_session_close {
+                                frames.push(RFrame::ctl(rc::FIN, SID));
+                            }
+                            cl.send(&frames).await.map_err(|e| Fail::plain("C08.P3", format!("the server stopped reading from the client ({e}) although only the target had finished")))?;
                         }
-                        cl.send(&frames).await.map_err(|e| Fail::plain("C08.P3", format!("the server stopped reading from the client ({e}) although only the target had finished")))?;
                         if case.by_session_close {
                             use tokio::io::AsyncWriteExt;
                             let _ = cl.tls.shutdown().await;
@@ -513,7 +604,12 @@ impl Family for SrvFinFam {
                         }
                         tokio::time::sleep(Duration::from_millis(50)).await;
                         let (got, err) = conn.as_ref().map(|c| { let g = c.lock().unwrap(); (g.received.clone(), g.error.clone()) }).unwrap_or_default();
-                        let how = if case.by_session_close { "closed its session" } else { "sent FIN" };
+                        let how = match (case.by_session_close, early) {
+                            (true, false) => "closed its session",
+                            (false, false) => "sent FIN",
+                            (true, true) => "closed its session without waiting for the SYNACK",
+                            (false, true) => "sent FIN without waiting for the SYNACK",
+                        };
                         ensure!(
                             ok && got == up,
                             "C08.P2",
@@ -554,6 +650,7 @@ impl Family for SrvFinFam {
         out.nt(case.up + case.down > 0);
         out.class_if(case.up >= 70_000 || case.down >= 70_000, "data-in-flight>64KiB");
         out.class_if(case.by_session_close, "client-ends-by-session-close");
+        out.class_if(case.early_fin && case.order == SrvOrder::ClientFirst, "end-arrives-while-the-server-dials");
         out.class(match case.order {
             SrvOrder::TargetHalfCloseThenClient => "target-half-close-then-client-fin",
             SrvOrder::ClientFirst => "client-fin-first",
@@ -767,6 +864,24 @@ pub struct BadAuthCase {
     /// no amount of waiting may turn an unauthenticated connection into a session
     #[serde(default)]
     pub pause_s: u8,
+    /// Some((k, related)): the server of this case is configured with password k of a list of
+    /// passwords with surrounding blanks / line breaks / differing only in case; the client presents
+    /// the hash of that very password (related = 0) or of a related one: trimmed (1), lower-cased
+    /// (2), with the final character dropped (3), with a NUL appended (4)
+    #[serde(default)]
+    pub odd_password: Option<(u8, u8)>,
+}
+
+const ODD_PASSWORDS: [&str; 5] = ["  correct horse ", "hunter2\n", "\tTabbed Pass\r\n", "   ", "MiXeD case"];
+
+fn related_password(pw: &str, how: u8) -> String {
+    match how % 5 {
+        0 => pw.to_string(),
+        1 => pw.trim().to_string(),
+        2 => pw.to_lowercase(),
+        3 => pw[..pw.len() - 1].to_string(),
+        _ => format!("{pw}\0"),
+    }
 }
 
 pub struct BadAuthFam;
@@ -780,15 +895,21 @@ impl Family for BadAuthFam {
         // an unfinished preamble (nothing at all / half a hash / padding not completed), a long silence,
         // then a complete session behind it
         vec![
-            BadAuthCase { flip_bit: None, declared: 30, truncate: Some(0), one_by_one: false, pause_s: 6 },
-            BadAuthCase { flip_bit: None, declared: 30, truncate: Some(16000), one_by_one: false, pause_s: 6 },
-            BadAuthCase { flip_bit: None, declared: 30, truncate: Some(60000), one_by_one: false, pause_s: 6 },
+            BadAuthCase { flip_bit: None, declared: 30, truncate: Some(0), one_by_one: false, pause_s: 6, odd_password: None },
+            BadAuthCase { flip_bit: None, declared: 30, truncate: Some(16000), one_by_one: false, pause_s: 6, odd_password: None },
+            BadAuthCase { flip_bit: None, declared: 30, truncate: Some(60000), one_by_one: false, pause_s: 6, odd_password: None },
+            // hashes of related passwords: the trimmed form of a password configured with blanks around it
+            BadAuthCase { flip_bit: None, declared: 30, truncate: None, one_by_one: false, pause_s: 0, odd_password: Some((0, 1)) },
+            BadAuthCase { flip_bit: None, declared: 30, truncate: None, one_by_one: false, pause_s: 0, odd_password: Some((1, 1)) },
+            BadAuthCase { flip_bit: None, declared: 30, truncate: None, one_by_one: false, pause_s: 0, odd_password: Some((3, 1)) },
+            BadAuthCase { flip_bit: None, declared: 30, truncate: None, one_by_one: false, pause_s: 0, odd_password: Some((1, 0)) },
         ]
     }
     fn strategy(&self, tier: Tier) -> BoxedStrategy<BadAuthCase> {
         let pause = if tier == Tier::Thorough { prop_oneof![16 => Just(0u8), 2 => Just(6u8), 1 => Just(12u8), 1 => Just(35u8), 1 => Just(65u8)].boxed() } else { prop_oneof![14 => Just(0u8), 1 => Just(6u8)].boxed() };
-        (proptest::option::weighted(0.6, any::<u8>()), prop_oneof![Just(0u16), Just(1), Just(30), Just(255), Just(256), Just(4000), Just(65535)], proptest::option::weighted(0.25, any::<u16>()), any::<bool>(), pause)
-            .prop_map(|(flip_bit, declared, truncate, one_by_one, pause_s)| BadAuthCase { flip_bit, declared, truncate, one_by_one, pause_s })
+        let odd = proptest::option::weighted(0.2, (0u8..5, 0u8..5));
+        (proptest::option::weighted(0.6, any::<u8>()), prop_oneof![Just(0u16), Just(1), Just(30), Just(255), Just(256), Just(4000), Just(65535)], proptest::option::weighted(0.25, any::<u16>()), any::<bool>(), pause, odd)
+            .prop_map(|(flip_bit, declared, truncate, one_by_one, pause_s, odd_password)| BadAuthCase { flip_bit, declared, truncate, one_by_one, pause_s, odd_password })
             .boxed()
     }
     fn case_budget_s(&self) -> u64 {
@@ -801,7 +922,16 @@ impl Family for BadAuthFam {
             w.rt.block_on(async {
                 let case = c;
                 let target = TcpTarget::start(IpAddr::V4(worker_ip_n(33)), TargetMode::Echo).await?;
-                let mut pre = ref_preamble(PASSWORD, case.declared as usize);
+                // the server: the world's, or one of its own configured with an odd password
+                let (server, configured, presented) = match case.odd_password {
+                    None => (w.server, PASSWORD.to_string(), PASSWORD.to_string()),
+                    Some((k, how)) => {
+                        let configured = ODD_PASSWORDS[k as usize % ODD_PASSWORDS.len()].to_string();
+                        let presented = related_password(&configured, how);
+                        (start_real_server_with(anytls_rs::padding::DEFAULT_PADDING_SCHEME, &configured).await?, configured, presented)
+                    }
+                };
+                let mut pre = ref_preamble(&presented, case.declared as usize);
                 if let Some(b) = case.flip_bit {
                     pre[(b / 8) as usize] ^= 1 << (b % 8);
                 }
@@ -810,8 +940,8 @@ impl Family for BadAuthFam {
                     pre.truncate(idx(t, full));
                 }
                 let complete = pre.len() == full;
-                let accepted = case.flip_bit.is_none() && complete;
-                let mut rc_ = RefClient::connect(w.server).await?;
+                let accepted = case.flip_bit.is_none() && complete && presented == configured;
+                let mut rc_ = RefClient::connect(server).await?;
                 if case.one_by_one && pre.len() <= 300 {
                     for b in &pre {
                         let _ = rc_.send_raw(&[*b]).await;
@@ -846,8 +976,9 @@ impl Family for BadAuthFam {
                         let _ = rc_.tls.shutdown().await;
                     }
                     let _ = rc_.drain(3000).await;
-                    ensure!(rc_.eof, "C06.e2e-neg", "the server did not close a connection with a bad preamble (flipped bit {:?}, truncated to {} of {} bytes)", case.flip_bit, pre.len(), full);
-                    ensure!(rc_.raw_in == 0, "C06.e2e-neg", "the server wrote {} application bytes to an unauthenticated peer", rc_.raw_in);
+                    let who = if presented != configured { format!(" (server password {:?}, the client presented the hash of the related password {:?})", configured, presented) } else { String::new() };
+                    ensure!(rc_.eof, "C06.e2e-neg", "the server did not close a connection with a bad preamble (flipped bit {:?}, truncated to {} of {} bytes){who}", case.flip_bit, pre.len(), full);
+                    ensure!(rc_.raw_in == 0, "C06.e2e-neg", "the server wrote {} application bytes to an unauthenticated peer{who}", rc_.raw_in);
                     tokio::time::sleep(Duration::from_millis(50)).await;
                     ensure!(target.n_conns() == 0, "C06.e2e-neg", "an outbound connection was made for an unauthenticated peer (flipped bit {:?}, truncated: {})", case.flip_bit, !complete);
                 }
@@ -867,6 +998,8 @@ impl Family for BadAuthFam {
         out.class_if(case.truncate.is_some(), "truncated");
         out.class_if(case.declared >= 256, "L>=256");
         out.class_if(!accepted && case.pause_s > 0, "silence-before-frames");
+        out.class_if(case.odd_password.is_some_and(|(k, how)| related_password(ODD_PASSWORDS[k as usize % ODD_PASSWORDS.len()], how) != ODD_PASSWORDS[k as usize % ODD_PASSWORDS.len()]), "hash-of-a-related-password");
+        out.class_if(case.odd_password.is_some_and(|(k, how)| related_password(ODD_PASSWORDS[k as usize % ODD_PASSWORDS.len()], how) == ODD_PASSWORDS[k as usize % ODD_PASSWORDS.len()]), "password-with-blanks-accepted");
         Ok(out)
     }
 }
